@@ -310,6 +310,20 @@ var c08LexEdges = []string{
 	"\xef\xbb\xbfreturn 1;", "return 1;\r\n", "x = 1;\r\nreturn x;\r\n", "\xff\xfereturn 1;", "return 1;\x1a", "//", "// comment", "/* c", "#", "@", "$", "$x", "~", "^", "&", "|", "\\", "\x00", "\xff", "\xc3", "\xe2\x82", "\r", "\r\n", "\t", "é", "x\x00y", "return \"a\x00b\";",
 }
 
+// scripts that make one process see very many distinct things of one kind
+var c08Bulk = []struct{ name, text string }{
+	{"distinct regular expressions via match", "n = 0; foreach i in 1..2500 { if (match(S, \"^user-\" + string(i) + \"$\")) { n++; } } return n;"},
+	{"distinct regular expressions via replace", "n = 0; foreach i in 1..2500 { n = n + len(replace(S, \"u\" + string(i), \"\")); } return n;"},
+	{"distinct invalid regular expressions", "n = 0; foreach i in 1..1500 { if (match(S, \"(\" + string(i))) { n++; } } return n;"},
+	{"distinct hash keys", "n = 0; foreach i in 1..3000 { x = {string(i): i, i: S}; n = n + len(keys(x)); } return n;"},
+	{"distinct strings", "n = 0; foreach i in 1..3000 { s = sprintf(\"%d-%s\", i, S); n = n + len(s); } return n;"},
+	{"distinct format strings", "n = 0; foreach i in 1..2000 { n = n + len(sprintf(\"%\" + string(i % 40 + 1) + \"d\", i)); } return n;"},
+	{"many calls of a user function", "function f(x) { return x + 1; } n = 0; foreach i in 1..5000 { n = f(n); } return n;"},
+	{"many scopes", "n = 0; foreach i in 1..1200 { foreach j in 1..2 { n = n + j; } } return n;"},
+	{"many time zones", "n = 0; foreach i in 1..300 { n = n + hour(i * 3600) + len(weekday(i * 86400)); } return n;"},
+	{"many split and join", "n = 0; foreach i in 1..2000 { n = n + len(split(string(i) + \",\" + S, \",\")); } return n;"},
+}
+
 // every character that may follow a backslash inside a string literal
 var c08EscapeChars = func() []string {
 	var out []string
@@ -318,6 +332,12 @@ var c08EscapeChars = func() []string {
 	}
 	return append(out, "\n", "\r", "\t", "\x00", "\xff", "é", "√", "\u2028")
 }()
+
+// the same malformed fragment two or three times inside one construct (an
+// error path that is fine once may not be fine the second time)
+var c08BadAtoms = []string{",", ")", "", ":", "]", "}", "=", "if", "1 +", "\"x", "/(", "function", "..", "!", "$"}
+var c08Containers = []string{"return {%s:1,%s:2};", "x = { %s : 1, %s : 2, %s : 3 };", "return [%s, %s];", "return len(%s, %s);", "x = f(%s)(%s);", "switch (%s) { case %s { } case %s { } }",
+	"if (%s) { } else { %s }", "foreach %s in %s { }", "function %s(%s) { }", "return %s ? %s : %s;", "x = %s; y = %s;", "local %s; local %s;", "return {1:%s, 2:%s};", "x[%s][%s] = 1;", "for (%s;%s;%s) { }", "return (%s)(%s);"}
 
 var hostileDict = []string{"(", ")", "{", "}", "[", "]", ";", ",", ":", "?", "=", "==", "!=", "<", "<=", ">", ">=", "+", "-", "*", "/", "%", "**", "++", "--", "+=", "-=", "*=", "/=",
 	"&&", "||", "!", "~=", "!~", "..", ".", "√", "in", "if", "else", "while", "for", "foreach", "function", "return", "local", "switch", "case", "default", "true", "false",
@@ -370,6 +390,16 @@ func (p *c08) Enumerate(tier string) [][]int32 {
 	for e := range c08LexEdges {
 		for pre := 0; pre < 4; pre++ {
 			out = append(out, []int32{14, int32(e), int32(pre)})
+		}
+	}
+	for ci := range c08Containers {
+		for a := range c08BadAtoms {
+			out = append(out, []int32{17, int32(ci), int32(a), int32((ci + a) % 2)})
+		}
+	}
+	for b := range c08Bulk {
+		for opt := 0; opt < 2; opt++ {
+			out = append(out, []int32{18, int32(b), int32(opt), int32((b + opt) % 2)})
 		}
 	}
 	for e := range c08EscapeChars {
@@ -683,7 +713,7 @@ func (p *c08) mutate(c *verifsim.Chooser, text string) (string, string) {
 func (p *c08) Run(c *verifsim.Chooser, st *Stats, render bool) *Outcome {
 	o := &Outcome{}
 	// weighted: 0 history x5, hostile text x3, tables x1 each, nesting, recursion
-	mode := []int{0, 1, 2, 3, 4, 5, 0, 0, 0, 0, 3, 3, 6, 7, 8, 9, 10}[c.Intn(17)]
+	mode := []int{0, 1, 2, 3, 4, 5, 0, 0, 0, 0, 3, 3, 6, 7, 8, 9, 10, 11, 12}[c.Intn(19)]
 	sample := map[string]interface{}{}
 	defer func() {
 		if render {
@@ -791,6 +821,53 @@ func (p *c08) Run(c *verifsim.Chooser, st *Stats, render bool) *Outcome {
 		o.Nontrivial = true
 		st.fault("builtin-odd-arguments")
 		p.prepareAndPoke(o, st, text, c.Intn(2) == 0, sample)
+	case 11: // the same malformed fragment several times in one construct
+		cont := c08Containers[c.Intn(len(c08Containers))]
+		atom := c08BadAtoms[c.Intn(len(c08BadAtoms))]
+		n := strings.Count(cont, "%s")
+		args := make([]interface{}, n)
+		for i := range args {
+			args[i] = atom
+		}
+		text := fmt.Sprintf(cont, args...)
+		currentDesc.Store("repeated malformed fragment")
+		sample["mode"], sample["script"] = "repeated malformed fragment", text
+		o.Digest.Str("rep" + text)
+		o.Nontrivial = true
+		st.fault("repeated-malformed-fragment")
+		p.prepareAndPoke(o, st, text, c.Intn(2) == 0, sample)
+	case 12: // bulk: very many distinct things of one kind in one process (caches, pools and tables with a limit)
+		b := c08Bulk[c.Intn(len(c08Bulk))]
+		opt := c.Intn(2) == 0
+		api := c.Intn(2)
+		currentDesc.Store("bulk " + b.name)
+		sample["mode"], sample["script"] = "bulk: "+b.name, b.text
+		o.Digest.Str("bulk" + b.text)
+		o.Nontrivial = true
+		st.fault("bulk")
+		ev := p.newEval(b.text, "")
+		err, esc := doPrepare(ev.e, opt)
+		if p.check(o, esc, "Prepare of a bulk script") || err != nil {
+			return o
+		}
+		for i := 0; i < 2; i++ {
+			ev.ctx.Rearm(-1)
+			ev.ctx.HardCap = 400000
+			var r Result
+			under(ev.ctx, func() {
+				if api == 1 {
+					r = doRun(ev.e, Obj{A: i, S: "user-7", Items: []int{1, 2}})
+				} else {
+					r = doExecute(ev.e, Obj{A: i, S: "user-7", Items: []int{1, 2}})
+				}
+			})
+			sample["result"] = r.String()
+			o.Digest.Str(r.String())
+			if p.check(o, r.Escaped, "bulk script "+b.name) {
+				return o
+			}
+		}
+		p.usable(o, ev, b.text, opt, "bulk")
 	case 10: // string escapes: every character after a backslash, input ending 0..5 characters later
 		ch := c08EscapeChars[c.Intn(len(c08EscapeChars))]
 		k := c.Intn(7)
